@@ -23,7 +23,8 @@ PROPS = {
               'the result is Err exactly when the tree contains (at any depth, incl. dead branches and format strings) one of the '
               'documented unsupported tests/actions/format fields/options, the error kind names such a construct, and every other '
               'parser-shaped tree compiles. All trees, unbounded depth.',
-        not_decided=['which node a keyword and its argument parse to (keyword table: winnow combinators) — covered only by the BOUNDED stand-in BOUNDED.parse_refusal '
+        not_decided=['trees that hold an option node are outside the domain of the compile contract (requires shaped()): covered only by the BOUNDED stand-in BOUNDED.option_nodes',
+                     'which node a keyword and its argument parse to (keyword table: winnow combinators) — covered only by the BOUNDED stand-in BOUNDED.parse_refusal '
                      '(every unsupported primary with 18 argument spellings in 5 shapes; labelled bounded, not counted as proved)',
                      'the text of the error message (format!("{:?}") is opaque)',
                      'std iterator plumbing inside <Vec<FormatElement>>::compile (map/collect::<Result>, filter_map/collect, join) is hoisted and '
@@ -99,7 +100,8 @@ PROPS = {
               '(tree, options); compile builds its manager from Default; no verified function reads global state: one PURE.<fn> obligation per '
               'verified function (its body is read by the verifier, which rejects statics, thread-locals, interior mutability and I/O; the callees '
               'outside it are the declared ASSUME/KANI items).',
-        not_decided=['parse determinism (combinators)',
+        not_decided=['parse determinism (combinators) — covered only by the BOUNDED stand-in BOUNDED.sequence (A, B, A, C, A in a fresh process for all ordered '
+                     'pairs of twenty inputs; labelled bounded, not counted as proved)',
                      'the clock window of time tests: no clock model in the verifier — covered only by the BOUNDED stand-in BOUNDED.clock_window (five '
                      'time-test compilations more than a second apart in one process, two right after a refused compilation; labelled bounded, not counted as proved)'],
     ),
